@@ -35,7 +35,7 @@ COMPONENTS = {
     "real": ["eolib.packet.PacketSequencer", "eolib.packet.sequence_start.*", "EoWriter/EoReader for every message"],
     "stub_or_harness": ["SimNet (virtual-time FIFO network)", "client/server node scripts", "SimRandom"],
 }
-PROBES = ["start_object_changed_in_place", "user_start_derived_from_library_class", "update_at_counter_9", "update_at_counter_0", "back_to_back_updates", "update_with_packets_in_flight",
+PROBES = ["sequencer_subclass_with_own_constructor", "start_constructed_ahead_of_hand_over", "start_object_changed_in_place", "user_start_derived_from_library_class", "update_at_counter_9", "update_at_counter_0", "back_to_back_updates", "update_with_packets_in_flight",
           "three_wraparounds_between_updates", "reconnect", "sequence_sent_as_short", "two_pings_outstanding",
           "request_from_another_thread"]
 FAULT_KINDS = ["latency_jitter", "start_update_mid_burst", "reconnect", "start_unreadable_during_request", "update_during_request"]
@@ -72,6 +72,13 @@ def generate(streams, tier):
         if rng.random() < 0.04:
             local.append(["next_with_update_inside", rng.choice([0, 7, 240, 1756, rng.randrange(0, 70000)])])
             continue
+        if rng.random() < 0.05:
+            # a new start is constructed now (when the server packet arrives) and installed later, or never
+            local.append(["prepare", rng.choice([0, 3, 250, 1756, rng.randrange(0, 70000)])])
+            continue
+        if rng.random() < 0.04:
+            local.append(["install_prepared"])
+            continue
         if rng.random() < 0.04:
             # the application changes the value of the start object it installed earlier (no new hand-over)
             local.append(["set_in_place", rng.choice([0, 3, 250, 1756, rng.randrange(0, 70000)])])
@@ -86,7 +93,7 @@ def generate(streams, tier):
         else:
             local.append(["next_during_outage"])
     return {"script": script, "local": local, "net_seed": rng.randrange(1 << 30), "draw_seed": rng.randrange(1 << 30),
-            "jitter": rng.choice([0, 5, 50, 400]), "start_base": rng.randrange(5)}
+            "jitter": rng.choice([0, 5, 50, 400]), "start_base": rng.randrange(5), "sequencer_class": rng.randrange(4)}
 
 
 class _Session:
@@ -322,8 +329,38 @@ def run_local(plan, s, res, tr):
                 hook()          # something else happens while the request is in progress
             return self._v
 
+    # the application's own sequencer class: the library's, or derived from it with a constructor of its own
+    kind = plan.get("sequencer_class", 0) % 4
+    Base = s.PacketSequencer
+
+    class NamedSequencer(Base):
+        def __init__(self, name, start):
+            super().__init__(start)
+            self.name = name
+
+    class DefaultSequencer(Base):
+        def __init__(self):
+            super().__init__(ProbeStart(0))
+
+    class CountingSequencer(Base):
+        def __init__(self, start, *, label="peer"):
+            super().__init__(start)
+            self.label = label
+
     installed = ProbeStart(0)
-    seq = s.PacketSequencer(start=installed)
+    if kind == 1:
+        seq = NamedSequencer("client", installed)
+    elif kind == 2:
+        seq = DefaultSequencer()
+        installed = ProbeStart(0)
+        seq.set_sequence_start(installed)
+    elif kind == 3:
+        seq = CountingSequencer(installed, label="x")
+    else:
+        seq = s.PacketSequencer(start=installed)
+    if kind:
+        res.count("probe.sequencer_subclass_with_own_constructor")
+    prepared = []       # starts constructed ahead of their hand-over (kept alive)
     n, start = 0, 0
     for i, op in enumerate(plan.get("local", [])):
         if op[0] == "set":
@@ -334,6 +371,16 @@ def run_local(plan, s, res, tr):
                 seq.set_sequence_start(installed)
             start = op[1]
             tr.ev("local", "set", op[1])
+        elif op[0] == "prepare":
+            prepared.append(ProbeStart(op[1]))       # constructing a start changes nothing that is in force
+            res.count("probe.start_constructed_ahead_of_hand_over")
+            tr.ev("local", "prepare", op[1])
+        elif op[0] == "install_prepared":
+            if prepared:
+                installed = prepared.pop(0)
+                seq.set_sequence_start(installed)
+                start = installed._v
+                tr.ev("local", "install", start)
         elif op[0] == "set_in_place":
             installed._v = op[1]        # "the start value in force at that moment" is what the start object says now
             start = op[1]
